@@ -308,6 +308,25 @@ def run(ck):
         leaf(sc, None)
         ck.count('dup.sampled_walks')
 
+    # (a4) ACQUIREs that arrive while an exchange of the same IKE_SA is outstanding (handshake, CREATE_CHILD_SA, rekey): the IKE_SA stays
+    for w in range(24 if not ck.thorough() else 400):
+        if not ck.mine(w):
+            continue
+        sc = walk.Scenario(base + 12000 + w, mons, handshake=False)
+        sim = sc.sim
+        sim.case['family'] = ('acquire-while-busy', w)
+        rngw = ck.rng('busy', w)
+        sc.trigger('A', 'acquire')
+        for _ in range(rngw.randrange(0, 4)):
+            if sim.net:
+                sc.deliver(0)
+        sc.trigger(rngw.choice('AB'), 'acquire')
+        if rngw.random() < 0.5:
+            sc.trigger(rngw.choice('AB'), rngw.choice(['acquire', 'expire_soft', 'rekey_ike']))
+        sim.drain()
+        leaf(sc, None)
+        ck.count('busy.leaves')
+
     # (b) hub with several peers, simultaneous initiations
     nh = 150 if not ck.thorough() else 6000
     rng = ck.rng('hub', ck.shard[0])
@@ -486,4 +505,6 @@ def verdict(ck):
     ck.floor('SPI collision set-ups inside one IKE_SA', ck.counters['collision.same_ike_sa_setups'], 6)
     ck.floor('held-DELETE histories', ck.counters['held.leaves'], 40)
     ck.floor('unanswered-request histories', ck.counters['unanswered.histories'], 25)
+    ck.floor('acquire-while-busy histories', ck.counters['busy.leaves'], 15)
+    ck.floor('removals of ended IKE_SAs judged', ck.counters['table.removals_of_ended_ike_sas'], 500)
     return None
